@@ -155,6 +155,7 @@ type member struct {
 	conn   *cluster.Conn
 	tr     *raft.RaftTransport
 	zero   *raft.RaftGroup
+	mon    *sim.MonWAL
 	nm     *raft.NodesManager
 	lossy  *lossyNM
 	srv    *grpc.Server
@@ -197,7 +198,9 @@ func (w *world) start(m *member, first bool) error {
 	if first {
 		peers = []uint64{m.id} // as server.go does for a node started without -join
 	}
-	m.zero, err = raft.NewRaftGroup(uuid.Nil, peers, wal.NewBadgerWAL(m.db, uuid.Nil), m.tr)
+	// the store wrapper lets a killed incarnation be cut off from its store at once, as a dead process would be
+	m.mon = sim.NewMonWAL(wal.NewBadgerWAL(m.db, uuid.Nil))
+	m.zero, err = raft.NewRaftGroup(uuid.Nil, peers, m.mon, m.tr)
 	if err != nil {
 		return err
 	}
@@ -224,6 +227,7 @@ func (w *world) kill(m *member) {
 	m.up = false
 	w.net.SetTarget(m.id, nil)
 	m.srv.Stop()
+	m.mon.Kill()
 	m.zero.VerifKill()
 	m.conn.Close()
 }
